@@ -62,6 +62,10 @@ var (
 
 func randomEmail(buf []byte) error {
 	// If the buffer is really short, choose only among 2-letter country TLDs so that we have some space for other parts.
+	if len(buf) < len("a@.cd") {
+		// too short to hold a local part, '@' and the shortest TLD: keep the length, give up the shape
+		return randomString(buf)
+	}
 	tlds := allTLDs
 	if len(buf) < len("a@b.cdef") {
 		tlds = ccTLDs
